@@ -55,6 +55,19 @@ def cases(tier: str, rng: random.Random) -> List[Case]:
                     c = std_case(v, x, rng.choice(["sync", "async"]), tag="c:hostile-scalar")
                     c.proj = "class"
                     out.append(c)
+        # numeric predicates at the ends of the number line: infinities, NaN, integers beyond any double
+        BIG = G.I(10 ** 400)
+        for v in (("Scalar", ("KFloat",), None, [], [("PMultipleOf", G.F1)], []), ("Scalar", ("KFloat",), None, [], [("PMultipleOf", G.F(False, 1, -1)), ("PMin", G.F0, False)], []),
+                  ("Scalar", ("KInt",), None, [], [("PMultipleOf", G.I(3))], []), ("Scalar", ("KInt",), None, [], [("PMultipleOf", G.I(7)), ("PMax", G.I(5), True)], []),
+                  ("Scalar", ("KFloat",), None, [], [("PMin", G.F0, True), ("PMax", G.INF, True)], []), ("Scalar", ("KInt",), None, [], [("PMin", G.NINF, False)], [])):
+            for x in (G.INF, G.NINF, G.NAN, G.F1, G.FN0, BIG, G.I(-(10 ** 400)), G.I(9), G.I(0)):
+                for m in ("sync", "async"):
+                    c = std_case(v, x, m, tag="c:number-line")
+                    c.proj = "class"
+                    out.append(c)
+                c = std_case(("ListV", v, [], [], None), ("VList", [x, G.I(3)]), "sync", tag="c:number-line")
+                c.proj = "class"
+                out.append(c)
         # uniqueness over items that look hashable and are not (a tuple holding a list / a dict / a set), next to plain
         # unhashable and hashable ones
         T_L, T_D, T_S = ("VTuple", [("VList", [G.I(1)])]), ("VTuple", [("VDict", [])]), ("VTuple", [G.I(1), ("VSet", [G.I(2)])])
